@@ -85,7 +85,7 @@ def _settings(I, T, ratio):
     return Fraction(I), Fraction(T)
 
 
-def t_silent(I, T, answered, ndata, ratio=4):
+def t_silent(I, T, answered, ndata, ratio=4, reenter=False):
     """peer answers the first `answered` pings at once, then never; `ndata` unrelated data frames arrive at symbolic times.
     The ping/pong timeout must be reported no later than (first unanswered ping) + 2T."""
     I, T = _settings(I, T, ratio)
@@ -96,7 +96,19 @@ def t_silent(I, T, answered, ndata, ratio=4):
         sx.assume(sx.And(g > 0, g < horizon / max(1, ndata)))
         script.append((g, server_frame(1, 2, b"d")))
     spec = {"script": script, "on_frame_bytes": _pong_responder(answered, 0)}
-    run = AppRun([spec], step_budget=4000)
+    hooks = {}
+    if reenter:
+        # while the connection is up the application calls run_forever() AGAIN on the same object with other (acceptable) settings;
+        # the call is refused ("socket is already opened") and must leave the running connection's keepalive as it is
+        def again(run):
+            import websocket
+            try:
+                run.app.run_forever(ping_interval=I * 50, ping_timeout=T * 40, ping_payload="other")
+                sx.require(False, "a second run_forever() on a connected app was not refused")
+            except websocket.WebSocketException:
+                pass
+        hooks["on_open"] = again
+    run = AppRun([spec], step_budget=4000, hooks=hooks)
     run.net.ping_times = []
     run.k.at(run.k.t0 + horizon, lambda: [s.deliver(close_frame(1000)) for s in run.net.socks if not s.closed])
     try:
@@ -203,6 +215,7 @@ def obligations(tier):
     # TLS transport (SSLDispatcher), and pongs that arrive in one segment / record behind a data frame
     for (i, t) in (pairs if thorough else pairs[::4]):
         live += [dict(I=i, T=t, ndata=(1 if thorough else 0), tls=tl, coalesce=co) for tl in (False, True) for co in (False, True) if tl or co]
+    silent += [dict(I=i, T=t, answered=1, ndata=0, reenter=True) for (i, t) in pairs[::5]]
     R = 6 if thorough else 4
     silent_sym = [dict(I="sym", T="sym", answered=a, ndata=n, ratio=R) for a in (0, 1) for n in (0, 1)]
     live_sym = [dict(I="sym", T="sym", ndata=n, ratio=R) for n in ((0, 1) if thorough else (0,))] + [dict(I="sym", T="sym", ndata=0, ratio=R, yield_on_send=True)]
@@ -222,7 +235,8 @@ def obligations(tier):
                    must_cover=["refused", "accepted"], kernel=["WebSocketApp.run_forever (argument validation)"]),
         Obligation("T-silent", t_silent, silent,
                    bounds="15 grid pairs (T in {1,2,5}, I/T in {1.1,1.5,2,2.5,4}); peer answers the first 0..%d pings then never; 0..%d unrelated data frames at "
-                          "symbolic times (solver reals); horizon 6 intervals after the first unanswered ping" % (2 if thorough else 1, 2 if thorough else 1),
+                          "symbolic times (solver reals); horizon 6 intervals after the first unanswered ping; also with a second (refused) run_forever() call "
+                          "with other settings made from on_open" % (2 if thorough else 1, 2 if thorough else 1),
                    must_cover=["silent"], budget_s=2400, step_budget=200000, kernel=["WebSocketApp._send_ping", "check", "Dispatcher.read", "_start_ping_thread", "_stop_ping_thread"]),
         Obligation("T-live", t_live, live, bounds="15 grid pairs; every ping answered after a latency that is a solver real in [0,T); 0..%d data frames at symbolic "
                    "times; 3 pings; plain and TLS transport, pong alone or behind a data frame in the same segment / record" % (2 if thorough else 1), must_cover=["live"], budget_s=2400, step_budget=200000,
